@@ -587,9 +587,45 @@ def _fuse_comprehensions(e):
     return F().visit(e)
 
 
+def _untuple_comp_targets(e):
+    """`.. for a, b in X ..` is `.. for t in X ..` with a = t[0], b = t[1] (so that `j[0] for j in enumerate(s)` and
+    `i for i, v in enumerate(s)` are one form)."""
+    counter = [0]
+
+    class U(ast.NodeTransformer):
+        def comp(self, node):
+            for gi, g in enumerate(node.generators):
+                if isinstance(g.target, ast.Tuple) and g.target.elts and all(isinstance(t, ast.Name) for t in g.target.elts):
+                    var = '__tup%d' % counter[0]
+                    counter[0] += 1
+                    index = {t.id: i for i, t in enumerate(g.target.elts)}
+                    if len(index) != len(g.target.elts):
+                        continue
+
+                    class R(ast.NodeTransformer):
+                        def visit_Name(self, n):
+                            if n.id in index and isinstance(n.ctx, ast.Load):
+                                return ast.copy_location(ast.Subscript(value=ast.Name(id=var, ctx=ast.Load()), slice=ast.Constant(value=index[n.id]), ctx=ast.Load()), n)
+                            return n
+                    g.target = ast.copy_location(ast.Name(id=var, ctx=ast.Store()), g.target)
+                    g.ifs = [R().visit(i) for i in g.ifs]
+                    for g2 in node.generators[gi + 1:]:
+                        g2.iter = R().visit(g2.iter)
+                        g2.ifs = [R().visit(i) for i in g2.ifs]
+                    if isinstance(node, ast.DictComp):
+                        node.key = R().visit(node.key)
+                        node.value = R().visit(node.value)
+                    else:
+                        node.elt = R().visit(node.elt)
+            self.generic_visit(node)
+            return node
+        visit_ListComp = visit_SetComp = visit_GeneratorExp = visit_DictComp = comp
+    return ast.fix_missing_locations(U().visit(e))
+
+
 def _comp_rename(e):
     """Rename comprehension / lambda variables positionally inside an expression (de Bruijn-like)."""
-    e = _fuse_comprehensions(copy_ast(e))
+    e = _untuple_comp_targets(_fuse_comprehensions(copy_ast(e)))
     counter = [0]
 
     def rn(node, mapping):
@@ -1102,10 +1138,38 @@ def canonical_func(fi):
                 tnames = {t.id for t in n.targets[0].elts}
                 if len(tnames) == len(n.targets[0].elts) and not any(tnames & names_in(v) for v in n.value.elts):
                     return [ast.copy_location(ast.Assign(targets=[t], value=v), n) for t, v in zip(n.targets[0].elts, n.value.elts)]
+            # `a, b = t` for a named sequence t is `a = t[0]; b = t[1]`
+            if len(n.targets) == 1 and isinstance(n.targets[0], (ast.Tuple, ast.List)) and isinstance(n.value, (ast.Name, ast.Attribute)) \
+                    and all(isinstance(t, ast.Name) for t in n.targets[0].elts) and dotted(n.value):
+                tnames = {t.id for t in n.targets[0].elts}
+                if len(tnames) == len(n.targets[0].elts) and not (tnames & names_in(n.value)):
+                    return [ast.copy_location(ast.Assign(targets=[t], value=ast.Subscript(value=copy_ast(n.value), slice=ast.Constant(value=i), ctx=ast.Load())), n)
+                            for i, t in enumerate(n.targets[0].elts)]
             return n
 
         def visit_If(self, n):
             self.generic_visit(n)
+            # a conditional update `if a < b: b = a` is `b = min(b, a)` (and `>` / max)
+            if len(n.body) == 1 and not n.orelse and isinstance(n.body[0], ast.Assign) and len(n.body[0].targets) == 1 \
+                    and isinstance(n.body[0].targets[0], (ast.Name, ast.Attribute)) and isinstance(n.test, ast.Compare) and len(n.test.ops) == 1 \
+                    and isinstance(n.test.ops[0], (ast.Lt, ast.LtE, ast.Gt, ast.GtE)):
+                a_ = n.body[0]
+                tdump = ast.dump(a_.targets[0]).replace('Store()', 'Load()')
+                vdump = ast.dump(a_.value)
+                l_, r_ = ast.dump(n.test.left), ast.dump(n.test.comparators[0])
+                less = isinstance(n.test.ops[0], (ast.Lt, ast.LtE))
+                fn = None
+                if (l_, r_) == (vdump, tdump):
+                    fn = 'min' if less else 'max'
+                elif (l_, r_) == (tdump, vdump):
+                    fn = 'max' if less else 'min'
+                if fn and tdump != vdump:
+                    cur = copy_ast(a_.targets[0])
+                    for x in ast.walk(cur):
+                        if hasattr(x, 'ctx') and isinstance(x.ctx, ast.Store):
+                            x.ctx = ast.Load()
+                    call = ast.Call(func=ast.Name(id=fn, ctx=ast.Load()), args=[cur, a_.value], keywords=[])
+                    return ast.fix_missing_locations(ast.copy_location(ast.Assign(targets=a_.targets, value=call), n))
             # a conditional re-binding `if c: v = E` is `v = E if c else v`
             if len(n.body) == 1 and not n.orelse and isinstance(n.body[0], ast.Assign) and len(n.body[0].targets) == 1 \
                     and isinstance(n.body[0].targets[0], ast.Name) and n.body[0].targets[0].id not in names_in(n.test) \
@@ -1121,6 +1185,13 @@ def canonical_func(fi):
                         and a.targets[0].id not in names_in(n.test):
                     v = ast.IfExp(test=n.test, body=a.value, orelse=b.value)
                     return ast.copy_location(ast.Assign(targets=a.targets, value=ast.copy_location(v, n)), n)
+                if isinstance(a, ast.Assign) and isinstance(b, ast.Assign) and len(a.targets) == 1 and len(b.targets) == 1 \
+                        and isinstance(a.targets[0], (ast.Attribute, ast.Subscript)) and ast.dump(a.targets[0]) == ast.dump(b.targets[0]):
+                    v = ast.IfExp(test=n.test, body=a.value, orelse=b.value)
+                    return ast.copy_location(ast.Assign(targets=a.targets, value=ast.copy_location(v, n)), n)
+                if isinstance(a, ast.Return) and isinstance(b, ast.Return) and a.value is not None and b.value is not None:
+                    v = ast.IfExp(test=n.test, body=a.value, orelse=b.value)
+                    return ast.copy_location(ast.Return(value=ast.copy_location(v, n)), n)
                 if isinstance(a, ast.Expr) and isinstance(b, ast.Expr) and isinstance(a.value, ast.Call) and isinstance(b.value, ast.Call):
                     ca, cb = a.value, b.value
                     if ast.dump(ca.func) == ast.dump(cb.func) and len(ca.args) == len(cb.args) and not ca.keywords and not cb.keywords \
@@ -1200,10 +1271,27 @@ def canonical_func(fi):
                         value=copy_ast(xs), slice=ast.Name(id=i.id, ctx=ast.Load()), ctx=ast.Load())), n)
                     n.body = [first] + n.body
             return n
+    def merge_tail_returns(body):
+        """`if c: return A` directly followed by the closing `return B` of the same list is `return A if c else B`."""
+        for st in body:
+            for field in ('body', 'orelse', 'finalbody'):
+                sub = getattr(st, field, None)
+                if isinstance(sub, list) and sub and isinstance(sub[0], ast.stmt) and not isinstance(st, (ast.FunctionDef, ast.ClassDef)):
+                    merge_tail_returns(sub)
+            for h in getattr(st, 'handlers', []) or []:
+                merge_tail_returns(h.body)
+        while len(body) >= 2 and isinstance(body[-1], ast.Return) and body[-1].value is not None and isinstance(body[-2], ast.If) \
+                and not body[-2].orelse and len(body[-2].body) == 1 and isinstance(body[-2].body[0], ast.Return) and body[-2].body[0].value is not None:
+            i_ = body[-2]
+            v = ast.IfExp(test=i_.test, body=i_.body[0].value, orelse=body[-1].value)
+            new_ret = ast.copy_location(ast.Return(value=ast.copy_location(v, i_)), i_)
+            body[-2:] = [new_ret]
+    merge_tail_returns(node.body)
     node = D().visit(node)
     ast.fix_missing_locations(node)
     node = _split_versions(fi, node)
     node = _fold_temp_loops(node)
+    sink_returns(node.body)          # arms that end in `v = f(v_earlier)` are assignments of a fresh web now
     # positions follow the canonical shape (pre-order), the original line is kept for reports
     counter = [0]
 
@@ -1384,8 +1472,32 @@ def effects(fi, keep=(), use_semiring=True, helper=None):
                 t = ('cmp', (op,), l, r)
             return (kind, t)
         return c
+    def flatten_ctx(items):
+        # the contexts of an effect form a conjunction: `if a: if b:` is `if a and b:`; tests between two loop / try headers
+        # are kept as one sorted block
+        out, block = [], []
+
+        def flush():
+            if block:
+                out.extend(sorted(set(block), key=repr))
+                del block[:]
+        for c in items:
+            if c[0] == 'if' and len(c) == 2:
+                t = c[1]
+                if isinstance(t, tuple) and t and t[0] == 'and':
+                    block.extend(('if', x) for x in t[1:])
+                else:
+                    block.append(c)
+            else:
+                if c[0] == 'ifnot':
+                    block.append(c)
+                else:
+                    flush()
+                    out.append(c)
+        flush()
+        return tuple(out)
     for e in effs:
-        ctx = tuple(norm_ctx((c[0],) + tuple(cz(x) if isinstance(x, ast.AST) else x for x in c[1:])) for c in e.ctx)
+        ctx = flatten_ctx(norm_ctx((c[0],) + tuple(cz(x) if isinstance(x, ast.AST) else x for x in c[1:])) for c in e.ctx)
         kind = e.kind
         if kind.startswith(('bind:', 'aug:')):
             pre, nm = kind.split(':', 1)
